@@ -292,6 +292,7 @@ package core
 //@   ensures[wf] codec.bwf(buf) && buf.buf == old(buf.buf) && buf.r >= old(buf.r)
 //@   ensures[extent] result1 == nil ==> value_unfold(buf.buf, old(buf.r)) && value_ok(buf.buf, old(buf.r)) && buf.r == value_end(buf.buf, old(buf.r))
 //@   ensures[progress@C11] result1 == nil ==> buf.r >= old(buf.r) + 3
+//@   ensures[accept@C02,C11] old(value_unfold(buf.buf, buf.r) && value_ok(buf.buf, buf.r)) ==> result1 == nil
 //@   ensures[errs] result1 != codec.MovedOrAsk && result1 != codec.Continue
 //@   ensures[type.line] (result1 == nil && old(buf.buf[buf.r]) == '+') ==> (result0 == codec.RspOk || result0 == codec.RspPong || result0 == codec.RspStatus)
 //@   ensures[type.int] (result1 == nil && old(buf.buf[buf.r]) == ':') ==> result0 == codec.RspInteger
@@ -307,6 +308,7 @@ package core
 //@     invariant 0 <= i && i <= n && codec.bwf(buf) && buf.buf == old(buf.buf) && buf.r >= pre(buf.r) && pre(buf.r) >= old(buf.r) + 3
 //@     invariant elems_ok(buf.buf, i, pre(buf.r)) && buf.r == elems_end(buf.buf, i, pre(buf.r))
 //@     invariant elems_snoc(buf.buf, i, pre(buf.r)) && elems_unfold(buf.buf, i, pre(buf.r))
+//@     invariant old(value_unfold(buf.buf, buf.r) && value_ok(buf.buf, buf.r)) ==> (elems_unfold(buf.buf, n - i, buf.r) && value_unfold(buf.buf, buf.r) && elems_ok(buf.buf, n - i, buf.r))
 
 //@ define sc(s) = ref(conn, s)
 //@ define sepbody(f) = f.Peer.RspBody == nil || f.RspBody == nil || f.RspBody.base != f.Peer.RspBody.base
